@@ -199,14 +199,27 @@ class E2E:
                 if "n" in flags:
                     raw += b"Cache-Control: no-cache\r\n"
                 raw += b"Connection: close\r\n\r\n"
-                c = self.rig.Client(sq.port)
-                c.send(raw)
-                r = c.response()
-                c.close()
+                r = None
+                for attempt in range(4):
+                    try:
+                        c = self.rig.Client(sq.port)
+                        c.send(raw)
+                        r = c.response()
+                        c.close()
+                        break
+                    except OSError:
+                        # refused/reset: squid gone (reported below) or the machine is overloaded (try again)
+                        if not sq.alive():
+                            break
+                        import time
+                        time.sleep(0.3 * self.rig.VERIF_SLOW)
                 after = len(self.origin.requests(sid))
                 if not sq.alive():
                     self.crashes += 1
-                    return "abort:squid-died " + " ".join(sq.problems()[:2]).replace(" ", "_")[:200]
+                    why = " ".join(sq.problems()[:2]).replace(" ", "_")[:200]
+                    slot["squid"].stop(kill=True)
+                    slot["squid"] = None
+                    return "abort:squid-died " + why
                 if r is None or not r["complete"]:
                     obs.append("noresp")
                     continue
@@ -224,7 +237,10 @@ class E2E:
                 else:
                     obs.append("x%d+%d" % (j, after - before))
             # the public entries of this URL as the cache manager reports them
-            r = self.rig.get(sq.port, "http://verif.squid.test:%d/squid-internal-mgr/objects" % sq.port)
+            try:
+                r = self.rig.get(sq.port, "http://verif.squid.test:%d/squid-internal-mgr/objects" % sq.port)
+            except OSError:
+                r = None
             if r is None or r["status"] != 200 or not r["complete"]:
                 return " ".join(obs) + " ; mgr-unavailable"
             marks, base = [], 0
